@@ -7,7 +7,7 @@
      remaining bytes, nothing only at end of file (util::ReadCompressed::Read on
      an intact plain or compressed input -- C15).  Every fragmentation of the
      stream is such a source.  WHang (fuel) never occurs. *)
-From PP Require Import Warc.WarcDefs Warc.WarcProofs Compress.CompressProofs Warc.ParallelDefs Warc.ParallelProofs.
+From PP Require Import Warc.WarcDefs Warc.WarcProofs Compress.CompressDefs Compress.CompressProofs Warc.ParallelDefs Warc.ParallelProofs.
 From Coq Require Import Permutation.
 Local Open Scope Z_scope.
 
@@ -149,6 +149,19 @@ Theorem C17_parallel_single_worker_keeps_order :
     pdone (prun (pinit [input] 1) sched) -> p_out (prun (pinit [input] 1) sched) = input.
 Proof. exact parallel_single_worker_keeps_order. Qed.
 Print Assumptions C17_parallel_single_worker_keeps_order.
+
+(* the input side of the tool (ptool): every input is framed by its own WARCReader and
+   an exception there ends the process.  The tool can only complete when every input
+   is, byte for byte, a concatenation of CR LF CR LF terminated records: a truncated
+   input (stdin or -i file) is an error of the tool, for every schedule and -j *)
+Theorem C17_parallel_tool_inputs_exact :
+  forall n fuel (inputs_frags : list frags) jobs sched st,
+    Forall (fun f => detect_magic (takeN kMagicSize (fbytes f)) = None) inputs_frags ->
+    ptool (fun s => read_plain n fuel [s]) (map fbytes inputs_frags) jobs sched = Some st ->
+    exists inputs, st = prun (pinit inputs jobs) sched /\
+      Forall2 (fun f recs => concat recs = fbytes f /\ Forall ends_with_trailer recs) inputs_frags inputs.
+Proof. exact parallel_tool_inputs_exact. Qed.
+Print Assumptions C17_parallel_tool_inputs_exact.
 
 Example C17_nonvacuous_parallel :
   let a := [1]%Z in let b := [2; 2]%Z in let c := [3]%Z in
